@@ -270,9 +270,9 @@ impl LruPageCache {
     
     /// Prefetch pages for better performance
     pub fn prefetch(&self, file_id: FileId, offset: u64, length: usize) -> Result<()> {
-        // Calculate pages to prefetch
+        // Calculate pages to prefetch (the window ends at u64::MAX at the latest)
         let start_page = FileManager::offset_to_page_id(offset);
-        let end_offset = offset + length as u64;
+        let end_offset = offset.saturating_add(length as u64);
         let end_page = FileManager::offset_to_page_id(end_offset.saturating_sub(1));
         
         // Prefetch each page (load into cache without returning data)
@@ -286,9 +286,12 @@ impl LruPageCache {
     /// Read data with prefetching hints
     pub fn read_with_prefetch(&self, file_id: FileId, offset: u64, length: usize, prefetch_ahead: usize) -> Result<CacheBuffer> {
         // Start prefetching in the background (simplified - would use async in real implementation)
+        // The look-ahead is only a hint: there is nothing to prefetch when the
+        // window would start beyond u64::MAX (the read itself returns no bytes there)
         if prefetch_ahead > 0 {
-            let prefetch_offset = offset + length as u64;
-            let _ = self.prefetch(file_id, prefetch_offset, prefetch_ahead);
+            if let Some(prefetch_offset) = offset.checked_add(length as u64) {
+                let _ = self.prefetch(file_id, prefetch_offset, prefetch_ahead);
+            }
         }
         
         // Read the requested data
